@@ -460,6 +460,156 @@ def c20_str(R):
         verify(R, "C20.str", AST + "::Location.__str__", run, replay, label=f"{k}-lines")
 
 
+# ---------------------------------------------------------------------------------------------------------------------------------
+# C20.merge.unbounded: Location.Merge for ANY number of arguments (a block or a module has any number of children): loop cut.
+
+_B = z3.Function("B", z3.IntSort(), z3.IntSort())        # B(i), E(i): span of the i-th argument
+_E = z3.Function("E", z3.IntSort(), z3.IntSort())
+
+
+class _SymArgs:
+    """The argument tuple of Merge(*args) with a symbolic number n of locations; element i is a real Location with span (B(i), E(i))
+    (element 0 carries the mapping).  Supports what the code may do before the loop: args[0], args[c:], len(args)."""
+
+    def __init__(self, n, mapping, start=0):
+        self.n, self.mapping, self.start = n, mapping, start
+        self.sym_length = SymInt(n.t - start)
+
+    def elem(self, i):
+        import nsl.ast as a
+        i = term(i)
+        return a.Location((SymInt(_B(i)), SymInt(_E(i))), self.mapping if (z3.is_int_value(z3.simplify(i)) and z3.simplify(i).as_long() == 0) else None)
+
+    def __getitem__(self, i):
+        if isinstance(i, int) and i >= 0:
+            if not cur().decide(self.sym_length.t > i):
+                raise IndexError("tuple index out of range")
+            return self.elem(self.start + i)
+        if isinstance(i, slice) and isinstance(i.start, int) and i.start >= 0 and i.stop is None and i.step in (None, 1):
+            return _SymArgs(self.n, self.mapping, self.start + i.start)
+        raise Unsupported(f"argument tuple indexed by {i!r}")
+
+    def __iter__(self):
+        raise Unsupported("iteration over a symbolic-length argument tuple outside the cut loop")
+
+
+@family("C20.merge.unbounded", props=["C20"], functions=[AST + "::Location.Merge"],
+        assumptions=["the number n >= 1 of merged locations is SYMBOLIC (no bound); location i has the span (B(i), E(i)) with 0 <= B(i) <= E(i)",
+                     "loop of Location.Merge cut mechanically (pyvc.loopcut) at the invariant Inv(k), k = number of arguments merged so far: the running span covers the spans of arguments 0..k-1 "
+                     "(proved for a fresh index) and its begin / end are the begin / end of one of them (witness indices); universally quantified hypotheses are instantiated explicitly",
+                     "len shim bound in nsl.ast globals"])
+def c20_merge_unbounded(R):
+    """Merge(l0 .. ln-1), any n >= 1: the result begins at the least begin and ends at the greatest end of the arguments (covers every
+    argument, and both ends are ends of arguments) and keeps the first argument's mapping -- by induction over the arguments (loop cut)."""
+    import nsl.ast as a
+    from pyvc import loopcut
+    from pyvc.sym import All
+    MERGE = AST + "::Location.Merge"
+    fn = a.Location.__dict__["Merge"].__func__
+    cutf = loopcut.cut(fn, 0)
+    M = object()
+
+    def span_ok(ctx, t):
+        ctx.assume(z3.And(_B(term(t)) >= 0, _E(term(t)) >= _B(term(t))))
+
+    def find_state(loc):
+        """The running span is the local that holds a pair; the mapping the local that holds M."""
+        pairs = [k for k, v in loc.items() if isinstance(v, tuple) and len(v) == 2 and k not in ("args",)]
+        maps = [k for k, v in loc.items() if v is M]
+        if len(pairs) != 1 or len(maps) != 1:
+            raise Missing(f"Location.Merge: cannot identify running span / mapping before the loop (pairs {pairs}, mapping holders {maps})")
+        return pairs[0], maps[0]
+
+    def prologue(ctx, n):
+        args = _SymArgs(n, M)
+        span_ok(ctx, 0)
+        with patched(a, len=_len2):
+            kind, _, loc = cutf.prologue(a.Location, args)
+            it = cutf.iterable(**{k: v for k, v in loc.items() if k in cutf.params})
+        return args, loc, it
+
+    names = {}
+
+    def run_init(ctx):
+        n = ctx.int("n")
+        ctx.assume(n >= 1)
+        args, loc, it = prologue(ctx, n)
+        sp, mp = find_state(loc)
+        names["sp"], names["mp"] = sp, mp
+        r = loc[sp]
+        return [("init.span-of-first", z3.And(term(r[0]) == _B(z3.IntVal(0)), term(r[1]) == _E(z3.IntVal(0)))),
+                ("init.ranges-over-all-other-arguments", z3.And(term(it.sym_length) == n.t - 1, z3.BoolVal(it.start == 1)) if isinstance(it, _SymArgs) else False)]
+
+    def replay(model, clause):
+        return script("""
+            from nsl import ast
+            import itertools
+            bad = None
+            m = object()
+            for n in (1, 2, 3, 5, 8):
+                for spans in itertools.islice(itertools.product([(4, 6), (0, 2), (5, 9), (3, 3)], repeat=n), 3000):
+                    r = ast.Location.Merge(*[ast.Location(s, m if i == 0 else None) for i, s in enumerate(spans)])
+                    want = (min(b for b, e in spans), max(e for b, e in spans))
+                    if (r.GetBegin(), r.GetEnd()) != want or r._Location__sourceMapping is not m:
+                        bad = (spans, (r.GetBegin(), r.GetEnd()), want); break
+                if bad: break
+            print('first disagreement (spans, merged, hull):', bad)
+            if bad: print('REPLAY-CONFIRMED')
+            """)
+
+    verify(R, "C20.merge.unbounded", MERGE, run_init, replay, label="loop-cut")
+    if "sp" not in names:
+        return
+    sp, mp = names["sp"], names["mp"]
+
+    def havoc(ctx, n, k):
+        """A state with Inv(k): k arguments merged."""
+        r0, r1, w0, w1 = ctx.int("r0"), ctx.int("r1"), ctx.int("w0"), ctx.int("w1")
+        ctx.assume(z3.And(w0.t >= 0, w0.t < k, w1.t >= 0, w1.t < k, r0.t == _B(w0.t), r1.t == _E(w1.t)))
+        covers = All(0, k, lambda i: z3.And(r0.t <= _B(i), r1.t >= _E(i)))
+        for w in (w0.t, w1.t):                 # instances of the invariant and of 0 <= B(i) <= E(i) at the witnesses
+            ctx.assume(z3.And(covers.at(w), _B(w) >= 0, _E(w) >= _B(w)))
+        return (r0, r1), covers
+
+    def run_pres(ctx):
+        n, k, j = ctx.int("n"), ctx.int("k"), ctx.int("j")
+        ctx.assume(n >= 1)
+        ctx.assume(z3.And(k.t >= 1, k.t < n.t))
+        (r0, r1), covers = havoc(ctx, n, k.t)
+        ctx.assume(covers.at(j.t))
+        span_ok(ctx, k.t)
+        args = _SymArgs(n, M)
+        state = {"cls": a.Location, "args": args, sp: (r0, r1), mp: M}
+        with patched(a, len=_len2):
+            kind, _, loc = cutf.step(cut_elem_=args.elem(k.t), **state)
+        q = loc[sp]
+        q0, q1 = term(q[0]), term(q[1])
+        return [("preserve.completes-the-iteration", kind in ("next", "continue")),
+                ("preserve.covers", All(0, k.t + 1, lambda i: z3.And(q0 <= _B(i), q1 >= _E(i))).at(j.t)),
+                ("preserve.tight", z3.And(z3.Or(q0 == r0.t, q0 == _B(k.t)), z3.Or(q1 == r1.t, q1 == _E(k.t)))),
+                ("preserve.mapping-kept", loc[mp] is M)]
+
+    verify(R, "C20.merge.unbounded", MERGE, run_pres, replay, label="loop-cut")
+
+    def run_exit(ctx):
+        n, j = ctx.int("n"), ctx.int("j")
+        ctx.assume(n >= 1)
+        (r0, r1), covers = havoc(ctx, n, n.t)
+        ctx.assume(covers.at(j.t))
+        args = _SymArgs(n, M)
+        state = {"cls": a.Location, "args": args, sp: (r0, r1), mp: M}
+        with patched(a, len=_len2):
+            kind, val, loc = cutf.epilogue(**state)
+        if not isinstance(val, a.Location):
+            return [("exit.returns-a-location", False)]
+        b, e = term(val.GetBegin()), term(val.GetEnd())
+        return [("exit.hull-covers", All(0, n.t, lambda i: z3.And(b <= _B(i), e >= _E(i))).at(j.t)),
+                ("exit.hull-tight", z3.And(b == r0.t, e == r1.t)),
+                ("exit.mapping-of-first", getattr(val, "_Location__sourceMapping", None) is M)]
+
+    verify(R, "C20.merge.unbounded", MERGE, run_exit, replay, label="loop-cut")
+
+
 @family("C20.merge", props=["C20"], functions=[AST + "::Location.Merge", "nsl.passes.UpdateLocations::UpdateLocationsVisitor.v_Generic"],
         assumptions=["induction on tree height: children are opaque nodes whose location (already the hull of their subtree, by hypothesis) is a symbolic span or unknown"])
 def c20_merge(R):
